@@ -124,6 +124,29 @@ def range_ok(u):
         return False
 
 
+def exact_scale_ok(u, v):
+    """the scale the written expression denotes, in 60-digit arithmetic from the table's doubles:
+    True iff the RE-READ unit `v` carries it to 1e-12 while the arithmetic-built `u` is within the
+    1e-9 of Unit.__eq__ — the two then differ only by rounding the arithmetic accumulated (long chains
+    such as x**(1/999983) followed by **(999983/101) amplify it past any per-step budget), which
+    "same scale up to rounding" covers; the reference never consults unyt's arithmetic"""
+    try:
+        import mpmath
+        with mpmath.workdps(60):
+            c, rest = u.expr.as_coeff_Mul()
+            ref = mpmath.mpf(c.p) / mpmath.mpf(c.q) if c.is_Rational else mpmath.mpf(float(c))
+            for b, p in rest.as_powers_dict().items():
+                if not (isinstance(b, sympy.Symbol) and p.is_Rational):
+                    return False
+                ref *= mpmath.mpf(float(Unit(b, registry=u.registry).base_value)) ** (mpmath.mpf(p.p) / mpmath.mpf(p.q))
+            if ref == 0:
+                return False
+            return bool(abs(mpmath.mpf(float(v.base_value)) - ref) <= abs(ref) * mpmath.mpf("1e-12")
+                        and abs(mpmath.mpf(float(u.base_value)) - ref) <= abs(ref) * mpmath.mpf("1e-9"))
+    except Exception:  # noqa: BLE001
+        return False
+
+
 def reparse(u, text, tol=1e-12):
     """'same' or a description of how Unit(text) fails to denote `u`; `tol`: relative rounding the
     arithmetic that built `u` may have accumulated in base_value (None: beyond any fixed tolerance,
@@ -138,7 +161,8 @@ def reparse(u, text, tol=1e-12):
     if not same_float(float(v.base_offset), float(u.base_offset)):
         bad.append("offset")
     inrange = range_ok(u) and tol is not None
-    if inrange and not (same_float(float(v.base_value), float(u.base_value)) or math.isclose(float(v.base_value), float(u.base_value), rel_tol=tol)):
+    if inrange and not (same_float(float(v.base_value), float(u.base_value)) or math.isclose(float(v.base_value), float(u.base_value), rel_tol=tol)
+                        or exact_scale_ok(u, v)):
         bad.append("scale")
     if inrange and not math.isnan(u.base_value) and not (v == u):
         bad.append("eq")
